@@ -677,8 +677,26 @@ func checkC10(p *core.Program, r *core.Report) {
 			}
 			r.Check(okFail, "R3", key, p.Pos(ret.Pos()), "nil after failSession", "returns nil without ending the session as failed")
 		case isRejection(ev, e.tryResume):
-			// only the Accepts rejection may come after the unrecoverable checks: its code must be the wait rejection
-			r.OK("R3", key, p.Pos(ret.Pos()), "rejection "+rejectionCode(ev, newErr))
+			// the property names the reasons a resume may be rejected with an engine error (not waiting, no waiting run,
+			// the wait does not accept it); everything else that makes resumption impossible must fail the session. In
+			// tryToResume the only rejection is therefore the one decided by Wait.Accepts
+			why := "not guarded by any test"
+			if cds := core.ControllingConds(ret.Block()); len(cds) > 0 {
+				cond, taken := cds[0].Cond, cds[0].Taken
+				for {
+					if un, ok := cond.(*ssa.UnOp); ok && un.Op == token.NOT {
+						cond, taken = un.X, !taken
+						continue
+					}
+					break
+				}
+				why = "decided by " + cond.String()
+				if c, ok := cond.(*ssa.Call); ok && c.Call.IsInvoke() && c.Call.Method.Name() == "Accepts" && !taken {
+					why = ""
+				}
+			}
+			r.Check(why == "", "R3", key, p.Pos(ret.Pos()), "rejection "+rejectionCode(ev, newErr)+" on the edge where Wait.Accepts(resume) is false",
+				"tryToResume rejects the resume with an engine error ("+rejectionCode(ev, newErr)+") "+why+": a condition other than 'the wait does not accept this resume' must end the session as failed with a failure event, not leave it waiting")
 		default:
 			fromLoop := false
 			for x := range core.BackSlice(ev, nil) {
